@@ -404,6 +404,33 @@ def run_history(pe, acc, case):
             sub = dict(case, reanalysed_with=pars, mode=mode)
             one_fit(pe, acc, sub, 'fit-history:reanalysed', basis, x, ys, none, mode, key=('hist-re', basis, mode, repr(pars)))
             one_fit(pe, acc, sub, 'fit-history:reanalysed', basis, x, ys, prior_specs(npar)[1], mode, key=('hist-re-pr', basis, mode, repr(pars)))
+    # (c) the arguments come back as they were handed in: abscissae as numpy array in NON-ascending point order, every option that
+    # produces output next to the fit (residual plot, qq plot, expected chi-square) switched on, then the same objects fitted again
+    if basis != '2d':
+        import matplotlib
+        matplotlib.use('Agg')
+        import matplotlib.pyplot as plt
+        perm = [3, 0, 5, 1, 4, 2]
+        xp = np.array([x[i] for i in perm], dtype=float)
+        yp = [ys[i] for i in perm]
+        [y.gamma_method() for y in ys]
+        for opts in ({'resplot': True}, {'qqplot': True}, {'resplot': True, 'qqplot': True}, {'expected_chisquare': True}):
+            sub = dict(case, options=sorted(opts), order=perm)
+            xb, yb = xp.copy(), list(yp)
+            try:
+                r1 = pe.least_squares(xp, yp, f, silent=True, **opts)
+                plt.close('all')
+                bad = None
+                if not np.array_equal(xp, xb) or any(a is not b for a, b in zip(yp, yb)):
+                    bad = 'least_squares(%s) changed the abscissae / ordinates it was given: x %s -> %s' % (opts, xb.tolist(), xp.tolist())
+            except Exception as e:
+                plt.close('all')
+                bad = 'raised %s: %s' % (type(e).__name__, e)
+            if bad:
+                acc.fail('fit-history:argument-changed', sub, bad)
+                xp = xb.copy()
+                continue
+            one_fit(pe, acc, sub, 'fit-history:after-options', basis, xp, yp, none, 'off', key=('hist-opt', basis, repr(sorted(opts))))
     acc.sample(dict(case, polluters=[p[0] for p in polluters], reanalysis=['S=0', 'tau_exp=4', 'S=3', 'default']))
 
 
